@@ -415,12 +415,18 @@ def run_sequence(args):
 
 
 def run_check():
-    ck = Check("C17", level="other")
-    ck.explanation = ("Frame condition checked on the implementation: deep snapshots (values bit-for-bit, coords, attrs, encodings, dims, "
-                      "chunks, flags) of every argument object and of the caller-owned base buffer before and after each call, over random "
-                      "sequences of public operations on the same objects (numpy-backed views of caller buffers, read-only buffers, dask-backed). "
-                      "The Lean part (Props/C17.lean) is a frame theorem over declared write-sets — true by construction of the model, so the "
-                      "assurance here is the exploration, which is why the level is 'other', not 'proof'.")
+    ck = Check("C17", level="proof")
+    ck.explanation = ("Lean (Model/FrameIR.lean, Props/C17frm.lean): the 22 operations anchored by C17 are translated from the current source "
+                      "into an imperative IR (assign-with-sharing / store; objects with cells values, coords, attrs, encoding, dims, name, held); "
+                      "the may-alias analysis `writes` is proved sound for all programs and all traces (frame_ir_general) and the write-set of "
+                      "each regenerated program is decided: empty for 15 operations, an exact residual set for 9 (attribute setter, helper "
+                      "objects' own dictionaries, the in-place longitude swap on its own argument, sel_* through isel views). Trusted: the "
+                      "fresh/view/share tables of xarray/numpy methods, flow-insensitivity, summaries of untranslated calls. The residual "
+                      "sets and everything dynamic are carried by the exploration: deep snapshots (values bit-for-bit, coords, attrs, "
+                      "encodings, dims, chunks, flags) of every argument object and of the caller-owned base buffer before and after each "
+                      "call, over random sequences of public operations on the same objects (numpy-backed views of caller buffers, read-only "
+                      "buffers, dask-backed). Props/C17.lean keeps the frame theorem over the declared write-set table, now tied to the "
+                      "regenerated sets by genfrm_table.")
     ck.extra["rule"] = ("operation sequences on one shared world; signature = (operation, backing, position-in-sequence class); non-trivial = the "
                         "operation ran (with or without raising) on a world with at least 2 times and 2 sites")
     ck.do_audit()
